@@ -244,7 +244,9 @@ def distance_bin(G):
     while np.any(L):
         D += n * L
         n += 1
-        nPATH = np.dot(nPATH, G)
+        # keep only which pairs are joined: walk counts wrap around in integer
+        # types and overflow in floating point on long dense networks
+        nPATH = (np.dot(nPATH, G) != 0).astype(float)
         L = (nPATH != 0) * (D == 0)
 
     D[D == 0] = np.inf  # disconnected nodes are assigned d=inf
@@ -689,7 +691,9 @@ def reachdist(CIJ, ensure_binary=True):
     faster but more memory intensive than "breadthdist.m".
     '''
     def reachdist2(CIJ, CIJpwr, R, D, n, powr, col, row):
-        CIJpwr = np.dot(CIJpwr, CIJ)
+        # keep only which pairs are joined: walk counts wrap around in integer
+        # types and overflow in floating point on long dense networks
+        CIJpwr = (np.dot(CIJpwr, CIJ) != 0).astype(float)
         R = np.logical_or(R, CIJpwr != 0)
         D += R
 
